@@ -13,6 +13,9 @@ from . import common, ragged_ix, c02
 from .common import harness, outcome, mk_ragged, pyint, arr
 
 
+LAZY_VALUE = [False]
+
+
 def build_value(RaggedArray, vk, vals, vlens, K):
     if vk == "scalar":
         return pyint(vals[0])
@@ -23,6 +26,9 @@ def build_value(RaggedArray, vk, vals, vlens, K):
     if vk == "column":
         return arr(vals, "int64").reshape(-1, 1)
     if vk in ("ragged", "ragged_bad"):
+        if LAZY_VALUE[0]:
+            # the value is itself a pending selection (rows 1.. of a larger array): same rows, other buffer offsets
+            return RaggedArray(arr([0] + list(vals), "int64"), arr([1] + list(vlens), "int64"))[1:]
         return RaggedArray(arr(vals, "int64"), arr(vlens, "int64"))
     raise ValueError(vk)
 
@@ -41,6 +47,7 @@ def sym(E, p, kf):
     rs = c02.gen_rowsel(E, p, R, B)
     cs = c02.gen_colsel(E, p, B)
     vk = p["vk"]
+    LAZY_VALUE[0] = bool(p.get("lazy_value"))
     mkv = (lambda n: E.int(n, -c02.DV, c02.DV)) if vk != "column" else (lambda n: E.bv(n, 64))
     if vk == "column":
         data = [E.bv(f"b{q}", 64) for q in range(S)]     # the XOR broadcast works on bit patterns
@@ -84,7 +91,7 @@ def sym(E, p, kf):
         raise ValueError(vk)
     ra = mk_ragged(RaggedArray, data, lens)
     got = outcome(lambda: do_set(RaggedArray, ra, rs, cs, vk, vals, vlens, K))
-    case = dict(lens=lens, data=data, rs=rs, cs=cs, vk=vk, vals=vals, vlens=vlens)
+    case = dict(lens=lens, data=data, rs=rs, cs=cs, vk=vk, vals=vals, vlens=vlens, lazy_value=bool(p.get("lazy_value")))
     if vk == "ragged_bad":
         # refused, and (observed through a second handle) nothing written
         return dict(goal=(got["k"] == "raise"), got=got, case=case)
@@ -119,6 +126,7 @@ def sym(E, p, kf):
 def conc(case):
     from npstructures import RaggedArray
     lens, data, rs, cs, vk, vals, vlens = (case[k] for k in ("lens", "data", "rs", "cs", "vk", "vals", "vlens"))
+    LAZY_VALUE[0] = bool(case.get("lazy_value"))
     rows = common.rows_of(data, lens)
     ra = mk_ragged(RaggedArray, data, lens)
     try:
@@ -225,6 +233,10 @@ def jobs(tier, seed):
     # permutations of four rows (a row list that starts with the lowest and ends with the highest row still is not a contiguous block)
     for vk in ("ragged", "flat", "scalar"):
         out.append(dict(base, R=4, L=2, ck="none", vk=vk, rk="list", k=4, B=4))
+    for rk in (dict(rk="all"), dict(rk="list", k=2), dict(rk="mask")):
+        out.append(dict(dict(base, ck="none", vk="ragged", lazy_value=True), **rk))
+        out.append(dict(dict(base, ck="slice", cstep=None, vk="ragged", lazy_value=True, R=2), **rk))
+    out.append(dict(base, ck="none", vk="ragged_bad", lazy_value=True, rk="all", R=2))
     out.append(dict(colbase, R=4, L=2 if q else 3, ck="none", rk="list", k=4, B=4))
     out.append(dict(base, R=4, L=2, ck="slice", cstep=None, vk="ragged", rk="list", k=3, B=4))
     js = [dict(h="C03.setitem", p=p) for p in out]
